@@ -41,8 +41,9 @@ impl Ev {
         }
     }
     pub fn violation(&mut self, kind: &str, what: String, replay: String) {
-        // keep the first few; one is enough to fail the check
-        if self.violations.len() < 5 {
+        // keep the first few of each kind; one is enough to fail the check, but a failing input found by an
+        // oracle late in the run must not be crowded out by earlier correspondence differences
+        if self.violations.iter().filter(|v| v.kind == kind).count() < 5 {
             self.violations.push(Violation { kind: kind.to_string(), what, replay });
         }
     }
